@@ -176,6 +176,8 @@ def run(ctx, scratch):
     normal = Impl(scratch, threads=2)
     chk = Impl(checked, threads=2)
     ctx.extra['checked_build'] = 'boundscheck/wraparound forced on, -O1 -D_GLIBCXX_ASSERTIONS'
+    # the flat models of Props/C17.v against the compiled kernels, on the same arrays (see the second half of this file)
+    kernel_correspondence(ctx, scratch)
     try:
         desc = normal.call('registry', 'describe', None, timeout=120)['ok']
         for name in sorted(desc):
@@ -244,10 +246,18 @@ def run(ctx, scratch):
     ctx.rule = ('every registered algorithm x default and boundary parameter sets x degenerate valid inputs (one edge, far fewer edges than '
                 'nodes, sinks, isolated nodes, self-loops, several components, stars, paths) x {normal build, bounds-checked build}; seed '
                 'labels >= n; oscillating weighted digraphs under the default sweep count; time-out 15 s + 0.5 s per node; '
-                'distinct by (algorithm, parameters, graph); non-trivial = at least one edge')
+                'distinct by (algorithm, parameters, graph); non-trivial = at least one edge. KERNEL CORRESPONDENCE: every flat model '
+                'of Model/Safety.v / Safety2.v / Vote.v evaluated by vm_compute with the fuel of its termination theorem vs the compiled '
+                'kernel called directly on the same CSR arrays (all digraphs with loops on n <= 3 nodes / all undirected graphs on n <= 4, '
+                'tie-rich unit-weight shapes, degenerate and structured random graphs up to n = 10; small-integer / dyadic weights so '
+                'that the comparison is exact; per-kernel numbers in kernel_correspondence)')
     ctx.assumptions = ['a Python exception is an admissible outcome (the property allows "returns or raises")',
                        'undefined behaviour other than indexing (e.g. signed overflow) is not observable by the checked build',
-                       'time proportionate to the input is approximated by a fixed budget far above the observed run times (milliseconds)']
+                       'time proportionate to the input is approximated by a fixed budget far above the observed run times (milliseconds)',
+                       'kernel correspondence: cdef kernels are reached through their one-line Python entry point with the module-level '
+                       'pre-processing replaced by the identity; np.argsort (push) and libc rand() (Leiden refinement) are oracles '
+                       'recorded from the run; one OpenMP thread; float inputs are dyadic so that float32 arithmetic is exact '
+                       '(inputs whose exact trajectory is not representable are dropped and counted)']
 
 
 def _both(ctx, normal, chk, name, spec, opts, fam, timeout):
@@ -294,6 +304,7 @@ def _both(ctx, normal, chk, name, spec, opts, fam, timeout):
 # the float32 tolerance (Brandes, which takes no decision on a float). The model runs first: the kernel is never called on
 # an input on which the model reports an out-of-bounds access.
 # =====================================================================================================================
+import re
 from fractions import Fraction as Fr
 
 from .. import common
@@ -317,6 +328,7 @@ TOL32 = 2e-4
 K_TIMEOUT = 10.0
 LCM10 = 2520          # rand() % s == (rand() % 2520) % s for every s <= 10 (the stream is handed to Coq reduced: nat is unary)
 LEIDEN_FUEL_CAP = 4096
+GENERAL_FUEL = 40       # passes granted to the model outside the contract of a termination theorem (kernel run only if it returns)
 
 
 def nl(xs):
@@ -447,7 +459,7 @@ def kres_of(v):
 class KStats:
     def __init__(self, name, mode, tie):
         self.name, self.mode, self.tie = name, mode, tie
-        self.d = dict(evaluated=0, compared=0, agree=0, dropped_inexact=0, tolerance_compared=0, kernel_not_run_model_oob=0,
+        self.d = dict(evaluated=0, compared=0, agree=0, dropped_inexact=0, dropped_model_cost=0, tolerance_compared=0, kernel_not_run_model_oob=0,
                       kernel_not_run_model_out_of_fuel=0, outside_contract=0, violations=0)
 
     def as_dict(self):
@@ -461,7 +473,7 @@ def run_cases(ctx, impl, st, site, fn, cases, compare, shard, mod='c17', skip_co
     the stated fuel). compare(case, model_value, impl_value) -> None | 'dropped' | 'tolerance' | (what, expected, observed)."""
     if not cases:
         return
-    vals = coq_eval('c17k_' + st.name, K_IMPORTS, [c['expr'] for c in cases], prelude=K_PRELUDE, shard=shard, timeout=900)
+    vals = coq_eval('c17k_' + re.sub(r'\W', '_', st.name), K_IMPORTS, [c['expr'] for c in cases], prelude=K_PRELUDE, shard=shard, timeout=900)
     for c, v in zip(cases, vals):
         st.d['evaluated'] += 1
         if not skip_count:
@@ -612,24 +624,57 @@ def k_vote(ctx, impl, rng, quick):
 
 
 # ---- 5a. D-iteration ------------------------------------------------------------------------------------------------
-def dit_mirror(indptr, indices, data, scores, fluid, damping, n_iter, tol):
-    """Exact replay of the float operations of diffusion(); True iff every intermediate value is a float32."""
-    ok = [True]
+class QN:
+    """A dyadic rational together with log2 of the denominator that the UNREDUCED Qplus / Qmult of the Coq model carry
+    (they multiply denominators): the cost of evaluating the model is governed by it."""
+    __slots__ = ('v', 'k')
 
-    def chk(x):
-        if not f32_ok(x):
-            ok[0] = False
+    def __init__(self, v, k=None):
+        self.v = Fr(v)
+        self.k = (self.v.denominator.bit_length() - 1) if k is None else k
+
+    def __add__(self, o):
+        return QN(self.v + o.v, self.k + o.k)
+
+    def __sub__(self, o):
+        return QN(self.v - o.v, self.k + o.k)
+
+    def __mul__(self, o):
+        return QN(self.v * o.v, self.k + o.k)
+
+
+MODEL_BITS_CAP = 6000      # beyond this many denominator bits the vm_compute evaluation of the unreduced model is not attempted
+
+
+class Mirror:
+    def __init__(self):
+        self.exact, self.bits = True, 0
+
+    def chk(self, x):
+        if not f32_ok(x.v):
+            self.exact = False
+        if x.k > self.bits:
+            self.bits = x.k
         return x
+
+
+def dit_mirror(indptr, indices, data, scores, fluid, damping, n_iter, tol):
+    """Exact replay of the float operations of diffusion(): (every intermediate value is a float32, denominator bits of the
+    unreduced rationals of the Coq model)."""
+    m = Mirror()
+    chk = m.chk
     n = len(fluid)
-    scores, fluid = list(scores), list(fluid)
-    restart = chk(1 - damping)
+    data = [QN(x) for x in data]
+    scores, fluid = [QN(x) for x in scores], [QN(x) for x in fluid]
+    damping, tol = QN(damping), QN(tol)
+    restart = chk(QN(1) - damping)
     residu = restart
     for _ in range(n_iter):
         for i in range(n):
             sent = fluid[i]
-            if sent > 0:
+            if sent.v > 0:
                 scores[i] = chk(scores[i] + sent)
-                fluid[i] = Fr(0)
+                fluid[i] = QN(0)
                 j1, j2 = indptr[i], indptr[i + 1]
                 tmp = chk(sent * damping)
                 if j2 != j1:
@@ -639,9 +684,11 @@ def dit_mirror(indptr, indices, data, scores, fluid, damping, n_iter, tol):
                 else:
                     removed = sent
                 residu = chk(residu - removed)
-        if residu < chk(tol * restart):
+                if m.bits > 4 * MODEL_BITS_CAP:
+                    return False, m.bits
+        if residu.v < chk(tol * restart).v:
             break
-    return ok[0]
+    return m.exact, m.bits
 
 
 def k_diteration(ctx, impl, rng, quick):
@@ -650,7 +697,13 @@ def k_diteration(ctx, impl, rng, quick):
 
     def add(fam, n, W, scores, fluid, damping, n_iter, tol):
         indptr, indices, data = to_csr(n, W)
-        exact = dit_mirror(indptr, indices, data, scores, fluid, damping, n_iter, tol)
+        exact, bits = dit_mirror(indptr, indices, data, scores, fluid, damping, n_iter, tol)
+        if not exact or bits > MODEL_BITS_CAP:
+            # not comparable exactly (or the unreduced rationals of the model grow beyond what vm_compute evaluates in
+            # reasonable time): dropped BEFORE the evaluation, and counted
+            st.d['dropped_inexact' if not exact else 'dropped_model_cost'] += 1
+            ctx.margin_dropped += 1
+            return
         cases.append(dict(fam=fam, exact=exact, nontrivial=len(indices) > 0 and n_iter > 0 and any(fluid),
                           args=dict(indptr=indptr, indices=indices, data=[float(x) for x in data], scores=[float(x) for x in scores],
                                     fluid=[float(x) for x in fluid], damping=float(damping), n_iter=n_iter, tol=float(tol)),
@@ -700,40 +753,40 @@ def k_diteration(ctx, impl, rng, quick):
 
 # ---- 5b. push -------------------------------------------------------------------------------------------------------
 def push_mirror(n, degrees, indptr, indices, rev_indptr, rev_indices, seeds, damping, tol, argsort):
-    """Exact replay of the float operations of push_pagerank() for a given argsort answer; True iff every intermediate
-    value is a float32 (1 / degree must be dyadic too)."""
-    ok = [True]
-
-    def chk(x):
-        if not f32_ok(x):
-            ok[0] = False
-        return x
-    res = [Fr(0)] * n
+    """Exact replay of the float operations of push_pagerank() for a given argsort answer: (every intermediate value is a
+    float32 — 1 / degree must be dyadic too —, denominator bits of the unreduced rationals of the Coq model)."""
+    m = Mirror()
+    chk = m.chk
+    seeds = [QN(x) for x in seeds]
+    damping = QN(damping)
+    one = QN(1)
+    res = [QN(0)] * n
     for v in range(n):
         for j in range(rev_indptr[v], rev_indptr[v + 1]):
             d = degrees[rev_indices[j]]
-            if d == 0:
-                return False
-            res[v] = chk(res[v] + chk(Fr(1, d)))
-        res[v] = chk(res[v] * chk(chk(chk(1 - damping) * damping) * chk(1 + seeds[v])))
-    scores = [1 - damping] * n
+            if d == 0 or d & (d - 1):
+                return False, 0
+            res[v] = chk(res[v] + chk(QN(Fr(1, d))))
+        res[v] = chk(res[v] * chk(chk(chk(one - damping) * damping) * chk(one + seeds[v])))
+    scores = [one - damping] * n
     work = list(argsort)
     pops = 0
     while work:
         v = work.pop(0)
         pops += 1
-        if pops > 4 * n + 4:
-            return False
+        if pops > 4 * n + 4 or m.bits > 4 * MODEL_BITS_CAP:
+            return False, m.bits
         scores[v] = chk(scores[v] + res[v])
         for j in range(indptr[v], indptr[v + 1]):
             nb = indices[j]
             tmp = res[nb]
-            if degrees[v] == 0:
-                return False
-            res[nb] = chk(tmp + chk(chk(res[v] * chk(1 - damping)) / degrees[v]))
-            if res[nb] > tol > tmp:
+            d = degrees[v]
+            if d == 0 or d & (d - 1):
+                return False, 0
+            res[nb] = chk(tmp + chk(chk(res[v] * chk(one - damping)) * QN(Fr(1, d))))
+            if res[nb].v > tol > tmp.v:
                 work.append(nb)
-    return ok[0]
+    return m.exact, m.bits
 
 
 def pow2_degree_graph(rng, n):
@@ -751,7 +804,7 @@ def k_push(ctx, impl, rng, quick):
                 'leaves float32 is dropped and counted); compared before the final numpy normalisation; 1 OpenMP thread',
                 'direct (argsort answer recorded from the call and handed to the model)')
     pre = []
-    for _ in range(330 if quick else 3300):
+    for _ in range(520 if quick else 5200):
         u = rng.random()
         if u < 0.35:
             fam, n, E = tie_shape(rng)
@@ -806,8 +859,12 @@ def k_push(ctx, impl, rng, quick):
             ctx.violation('push_pagerank', 'np.argsort answer is not a permutation of the nodes (contract of push_terminates)',
                           case=case, kind='model_correspondence', family=c['fam'], observed=order)
             continue
-        c['exact'] = push_mirror(a['n'], a['degrees'], a['indptr'], a['indices'], a['rev_indptr'], a['rev_indices'], c['seeds'],
-                                 c['damping'], c['tol'], order)
+        c['exact'], bits = push_mirror(a['n'], a['degrees'], a['indptr'], a['indices'], a['rev_indptr'], a['rev_indices'], c['seeds'],
+                                       c['damping'], c['tol'], order)
+        if not c['exact'] or bits > MODEL_BITS_CAP:
+            st.d['dropped_inexact' if not c['exact'] else 'dropped_model_cost'] += 1
+            ctx.margin_dropped += 1
+            continue
         c['expr'] = ('(kmap (map qp) (Safety.push_init (seq 0 %d) %s %s %s %s %s (repeat 0%%Q %d)), '
                      'kmap (map qp) (Safety.push_pagerank (Safety2.push_fuel %d) %d %s %s %s %s %s %s %s %s (fun _ => %s)))' % (
                          a['n'], nl(a['rev_indptr']), nl(a['rev_indices']), nl(a['degrees']), ql(c['seeds']), cq(c['damping']), a['n'],
@@ -1023,7 +1080,7 @@ def k_louvain(ctx, impl, rng, quick):
         if contract:
             fuel = '(lv_fuel %d %s %s %s %s %s %s %s %s)' % (n, nl(indptr), nl(indices), ql(data), ql(ow), ql(iw), cq(res), cq(tol), nl(labels))
         else:
-            fuel = '200'
+            fuel = '%d' % GENERAL_FUEL
         cases.append(dict(fam=fam, contract=contract, nontrivial=len(indices) > 0,
                           bits=(n, data, sl, ow, iw, ocw, icw, res),
                           args=dict(labels=labels, indices=indices, indptr=indptr, data=[float(x) for x in data], ow=[float(x) for x in ow],
@@ -1042,12 +1099,12 @@ def k_louvain(ctx, impl, rng, quick):
         tol = rng.choice([Fr(1, 1024), Fr(1, 128), Fr(1, 8), Fr(1), Fr(0)])
         add(fam, n, indptr, indices, data, ow, iw, sl, labels, res, tol, contract=tol > 0)
     exh = list(all_symmetric(4))
-    for k, g in enumerate(rng.sample(exh, 160) if quick else exh):
+    for k, g in enumerate(exh):
         one(g, k)
     for k in range(260 if quick else 2600):
         one(None, k)
     # outside the contract of the termination theorem (optimize_core_safe: in bounds for EVERY fuel): directed graphs,
-    # arbitrary node weights; the kernel is only run when the model returns within 200 passes
+    # arbitrary node weights; the kernel is only run when the model returns within GENERAL_FUEL passes
     for k in range(60 if quick else 600):
         fam, n, E = kgraph(rng, directed=True)
         W, kind = weights(rng, E, symmetric=False)
@@ -1096,7 +1153,7 @@ def k_leiden(ctx, impl, rng, quick):
             labels = [rng.randrange(n) for _ in range(n)] if n else []
         add(fam, n, indptr, indices, data, ow, iw, sl, labels, RESOLUTIONS[k % len(RESOLUTIONS)], True)
     exh = list(all_symmetric(4))
-    for k, g in enumerate(rng.sample(exh, 160) if quick else exh):
+    for k, g in enumerate(exh):
         one(g, k)
     for k in range(260 if quick else 2600):
         one(None, k)
@@ -1114,7 +1171,7 @@ def k_leiden(ctx, impl, rng, quick):
     # all-zero stream, whether any access is out of bounds.
     guard = [c for c in pre if not c['contract']]
     if guard:
-        gv = coq_eval('c17k_leiden_guard', K_IMPORTS, [leiden_expr(c, [0], 60) for c in guard], prelude=K_PRELUDE, shard=60)
+        gv = coq_eval('c17k_leiden_guard', K_IMPORTS, [leiden_expr(c, [0], GENERAL_FUEL) for c in guard], prelude=K_PRELUDE, shard=60)
         for c, v in zip(guard, gv):
             c['guard'] = kres_of(v)[0]
     cases = []
@@ -1149,7 +1206,7 @@ def k_leiden(ctx, impl, rng, quick):
             continue
         c['impl'] = o
         n = c['n']
-        fuel = min(n ** n + 1, LEIDEN_FUEL_CAP) if c['contract'] else 200
+        fuel = min(n ** n + 1, LEIDEN_FUEL_CAP) if c['contract'] else GENERAL_FUEL
         c['expr'] = leiden_expr(c, [x % LCM10 for x in o['stream']], fuel)
         cases.append(c)
     vals = coq_eval('c17k_leiden', K_IMPORTS, [c['expr'] for c in cases], prelude=K_PRELUDE, shard=60, timeout=900) if cases else []
@@ -1203,8 +1260,8 @@ def k_propagation(ctx, impl, rng, quick):
             fam = 'oscillating'
         else:
             fam, n, E = kgraph(rng, directed=rng.random() < 0.5)
-            if n < 2:
-                continue
+            if n < 2 or not E:
+                continue              # an empty matrix is rejected by check_format (ValueError) before the loop
             W, kind = weights(rng, E, symmetric=False, kind=rng.choice(['unit', 'int']))
             spec = dict(shape=[n, n], coo=[[i, j, int(w)] for (i, j), w in sorted(W.items())], dtype='int', fmt='csr')
         seeds = {}
@@ -1214,6 +1271,8 @@ def k_propagation(ctx, impl, rng, quick):
         weighted = rng.random() < 0.8
         # the model needs index_remain and the initial labels: node_order=None -> the unlabelled nodes in increasing order
         labels0 = [seeds.get(i, -1) for i in range(n)]
+        if len({x for x in labels0 if x >= 0}) == 1:
+            labels0 = list(range(n))        # get_adjacency_values(which='labels'): one distinct seed label -> arange(n)
         if len(set(labels0)) == n and min(labels0) >= 0:
             index = list(range(n))
         else:
